@@ -1,1 +1,13 @@
-// harnesses for src/cancel (child module, cfg(kani) only)
+// child module of src/cancel.rs (cfg(kani) only)
+use super::*;
+
+/// Stub for `CancelImpl::is_canceled` in harnesses that contain no canceller: the cancel bit is
+/// never set there, which is asserted (not assumed) on every call; returning the constant lets
+/// CBMC skip the cancel paths instead of exploring them under an unsatisfiable guard.
+pub fn is_canceled_never<T: CancelIo>(c: &CancelImpl<T>) -> bool {
+    assert!(unsafe { *c.state.as_ptr() } & 1 == 0, "model: cancel bit set in a harness without canceller");
+    false
+}
+pub fn state_addr<T: CancelIo>(c: &CancelImpl<T>) -> *const u8 {
+    c.state.as_ptr() as *const u8
+}
